@@ -69,8 +69,9 @@ def error_module_aliases(tree):
     return mods, fns
 
 
-def diagnostic_calls():
-    """Every call of a level function: (file, enclosing function, level, badness expr or None)."""
+def diagnostic_calls(with_pos=False):
+    """Every call of a level function: (file, enclosing function, level, badness expr or None);
+    with_pos (additive, default off): also (lineno, end_lineno) of the call expression."""
     out = []
     for rel, src in source_files():
         tree = ast.parse(src)
@@ -103,7 +104,8 @@ def diagnostic_calls():
                         bad = ast.unparse(node.args[2])
                     if any(isinstance(a, ast.Starred) for a in node.args):
                         bad = "*args"
-                    out.append((rel, self.where, level, bad))
+                    out.append((rel, self.where, level, bad, node.lineno, node.end_lineno) if with_pos
+                               else (rel, self.where, level, bad))
                 self.generic_visit(node)
 
         V().visit(tree)
@@ -144,3 +146,16 @@ def verbosity_readers():
 
         V().visit(tree)
     return sorted(out)
+
+
+def diagnostic_sites():
+    """Every diagnostic call site with a stable identity: (file, enclosing function, level, k) where
+    k numbers the calls of that level inside that function in source order, plus its line span.
+    -> list of dict(file, fn, level, k, lineno, end_lineno)."""
+    seen = {}
+    out = []
+    for rel, fn, level, _bad, lo, hi in sorted(diagnostic_calls(with_pos=True), key=lambda c: (c[0], c[4])):
+        k = seen.get((rel, fn, level), 0)
+        seen[(rel, fn, level)] = k + 1
+        out.append(dict(file=rel, fn=fn, level=level, k=k, lineno=lo, end_lineno=hi))
+    return out
